@@ -4,13 +4,8 @@ import json, os, sys
 ROOT = os.path.dirname(os.path.dirname(os.path.abspath(__file__)))
 sys.path.insert(0, ROOT)
 
-CHECKS = {
-    "C01": dict(
-        technique="property-based differential testing against an independent reference model (proptest, shrinking) + exhaustive enumeration of the 2^32 bucket-mapping arguments and of the length-table boundaries",
-        text="Generated-input search: random/structured byte strings and injected generator states (counts up to 2^32-1) x 5 variants x all 32 option settings compared part by part with an independent TLSH reference model; both bucket mappings compared on all 2^32 argument tuples. Held on everything explored; not a proof for all byte strings.",
-        note="Trusts the frozen reference model (vmodel: Pearson table, topval[170], soft-float f32 formula), validated at every start against the official implementation's published vectors carried by the repository; injected states are validated against real streaming in C11 thorough.",
-        ref="DESIGN.md section 5 / C01"),
-}
+sys.path.insert(0, os.path.join(ROOT, "tools"))
+from meta import MANIFEST as CHECKS
 
 def main():
     props = [json.loads(l)["id"] for l in open(os.path.join(ROOT, "properties.jsonl"))]
@@ -26,11 +21,11 @@ def main():
             "evidence_file": "/verif/evidence/%s.json" % pid,
             "replay_cmd_template": "./check %s --replay {path}" % pid,
             "engine": "probe",
-            "level_claimed": {"category": "exploration", "text": c["text"], "design_ref": c["ref"]},
+            "level_claimed": {"category": "exploration", "text": c["text"], "design_ref": "DESIGN.md section 5 / %s" % pid},
             "level_note": c["note"],
             "technique": c["technique"],
         })
-    na = [{"property_id": p, "reason": "check under construction in this session (no claim yet)"} for p in props if p not in CHECKS]
+    na = [{"property_id": p, "reason": "no check claimed"} for p in props if p not in CHECKS]
     m = {
         "version": 1,
         "setup_cmd": "./check --setup",
@@ -47,11 +42,13 @@ def main():
         ],
         "checks": checks,
         "not_applicable": na,
+        "fix_commits": FIX_COMMITS,
         "notes": "Technique family: property-based testing and fuzzing (generated-input search against explicit oracles). See DESIGN.md.",
     }
     json.dump(m, open(os.path.join(ROOT, "MANIFEST.json"), "w"), indent=1)
     print("wrote MANIFEST.json with %d checks, %d not_applicable" % (len(checks), len(na)))
 
 HOOK_COMMITS = ["d9c7ab7"]
+FIX_COMMITS = ["fc64808", "e6891a7", "86f8cdb"]
 if __name__ == "__main__":
     main()
